@@ -244,6 +244,8 @@ SELFTEST = [
     (['~~~'], False), (['foo ~~~ bar'], True), (['~'], True), (['a ~ b ~ c'], True), (['~~ a ~~'], False), (['~~a~~'], False),
     (['~a~'], False), (['a ~~ b'], True),
     (['a | b', 'c | d'], True), (['a | b', '| - |'], False), (['| - |', 'foo'], True),
+    (['a |', '     --- |'], True),             # >= 4 spaces: paragraph continuation text, no block start
+    (['a', '     b', '     --- |'], True),
     (['[ x'], True), (['x ]'], True), (['[x]'], True), (['[x](y)'], False), (['[ ]( )'], False),
     (['[x][y]'], False), (['[x]: y'], False), (['foo [x]: y'], True), ([']( x'], True),
     (['AT&T'], True), (['&copy;'], False), (['&copy'], True), (['&x;'], True), (['&#65;'], False),
